@@ -207,8 +207,8 @@ class EStream(Engine):
                        'eq/hash against other position', 'cache_clear between reads', 'file-backed stream',
                        'slice-built stream', 'bytealigned option on')
 
-    QUICK = (26000, 30)
-    THOROUGH = (330000, 60)
+    QUICK = (42000, 30)
+    THOROUGH = (560000, 60)
 
     # -------------------------------------------------------------------------------------------------
     def plan(self, tier, base_seed):
@@ -275,7 +275,7 @@ class EStream(Engine):
             kw['pos'] = p0
         elif via == 'ctorneg' and p0 < L:
             kw['pos'] = p0 - L
-        route = cfg.get('route', 'mem')
+        route = cfg.get('route') if cfg.get('route') in ROUTES else 'mem'
         C = self.cls
         if route == 'file' and L % 8 == 0:
             self.fs = SimFS()
@@ -439,8 +439,6 @@ class EStream(Engine):
                 return {'out': 'raise', 'accept': ('ValueError',), 'trig': 'stretchy-illegal-length'}
             length = n // plan[1]
             fam = 'stretchy'
-            if m.get('obj') and not inlist:
-                fam = 'stretchy-dtype-object'
         else:
             n = plan[1]
             if plan[2]:
@@ -475,6 +473,8 @@ class EStream(Engine):
                 t = {'kw': T_NEG_KW, 'dtype': T_NEG_DT}.get(m.get('neg'), 'bad-token')
                 trigs.append(t)
                 plans.append(('neg',))
+                if t == 'bad-token':           # 'uint:-8' as a string is simply not a token
+                    static = static or 'bad-token'
             else:
                 pl = token_plan(m['name'], m['len'])
                 plans.append(pl)
@@ -574,7 +574,8 @@ class EStream(Engine):
             return d, meta, None
         if sp in OBJ_SPELL:
             sp = 'colon'
-        return spell_token(name, length, sp), {'kind': 'tok', 'name': name, 'len': length, 'scale': None, 'neg': None}, None
+        return spell_token(name, length, sp), {'kind': 'tok', 'name': name, 'len': length, 'scale': None, 'neg': None,
+                                               'ws': sp == 'ws'}, None
 
     def _item_render(self, it, as_str):
         """One readlist item -> (piece, [metas], ctor_exc).  piece is a str, an int or a Dtype."""
@@ -582,7 +583,8 @@ class EStream(Engine):
         mult = it.get('mult')
         mult = mult if isinstance(mult, int) and 0 <= mult <= 4 else None
         if k == 'group':
-            subs = [self._item_render(x, True) for x in it.get('items', []) if isinstance(x, dict) and x.get('t') in ('tok', 'int', 'struct')]
+            sub_items = it.get('items') if isinstance(it.get('items'), list) else []
+            subs = [self._item_render(x, True) for x in sub_items if isinstance(x, dict) and x.get('t') in ('tok', 'int', 'struct')]
             inner = ', '.join(str(s[0]) for s in subs)
             metas = [mm for s in subs for mm in s[1]]
             m = mult if mult is not None else 2
@@ -612,9 +614,10 @@ class EStream(Engine):
         return obj, [meta], exc
 
     def _list_render(self, ev):
-        items = [x for x in ev.get('items', []) if isinstance(x, dict)]
+        items = ev.get('items') if isinstance(ev.get('items'), list) else []
+        items = [x for x in items if isinstance(x, dict)]
         how = ev.get('as', 'list')
-        kw = ev.get('kw') or {}
+        kw = ev.get('kw') if isinstance(ev.get('kw'), dict) else {}
         kw = {str(k): v for k, v in sorted(kw.items()) if isinstance(v, int) and not isinstance(v, bool)}
         pieces, metas, exc = [], [], None
         for it in items:
@@ -693,9 +696,18 @@ class EStream(Engine):
         e = self._expect_elem(meta, p)
         s = self.s
         st, val = call(s.peek if peek else s.read, fmt)
+        # relaxations (two defensible outcomes): a length-less token given as a Dtype object, or spelled with
+        # surrounding white space, may be read to the end like its plain string spelling or be refused
+        stretchy_obj = (meta['kind'] == 'tok' and meta['len'] is None and (meta.get('obj') or meta.get('ws'))
+                        and token_plan(meta['name'], None)[0] == 'stretchy')
         if e['out'] == 'ok':
             fam = e['fam']
             n = e['n']
+            if stretchy_obj and st != 'ok' and exc_is(val, 'TypeError', 'ValueError'):
+                self.probe('relaxation: length-less Dtype object / spaced token refused by read')
+                self._post(incs, op, 'stretchy-refused', (p,))
+                self._note_state(op, 'exc')
+                return {'st': st, 'v': kernel.exc_name(val)}, incs
             if st == 'ok':
                 self._value_incident(incs, op, fam, val, e['val'], self.B[p:p + n])
                 self._post(incs, op, fam, (p,) if peek else (p + n,))
@@ -704,20 +716,25 @@ class EStream(Engine):
                 if fam == 'golomb':
                     self.probe('golomb code read')
             else:
-                if fam == 'stretchy-dtype-object' and exc_is(val, 'TypeError', 'ValueError'):
-                    self.probe('relaxation: stretchy Dtype object refused by read')   # DESIGN 5.3 addendum, see report
-                elif exc_is(val, *INTERNAL) and not exc_is(val, 'ValueError', 'IndexError', 'TypeError'):
+                if exc_is(val, *INTERNAL) and not exc_is(val, 'ValueError', 'IndexError', 'TypeError'):
                     incs.append(self.inc(f'{op}|{fam}|raised:{kernel.exc_name(val)}', msg=str(val)[:200]))
                 else:
                     incs.append(self.inc(f'{op}|{fam}|raised-on-valid-read', exc=kernel.exc_name(val), msg=str(val)[:200]))
                 self._post(incs, op, fam + '-failed', (p,))
         else:
             trig = e['trig']
+            accept = e['accept']
+            if stretchy_obj:
+                accept = accept + ('TypeError', 'ValueError')
             if st == 'ok':
-                incs.append(self.inc(f'{op}|{trig}|should-raise', got=canon(val), expected=list(e['accept'])))
+                disc = 'not-rejected' if trig in (T_NEG_DT, T_NEG_KW, T_NEG_LIST) else 'should-raise'
+                incs.append(self.inc(f'{op}|{trig}|{disc}', got=canon(val), expected=list(accept)))
                 self._post(incs, op, trig, (p,), adopt_any_valid=True)
             else:
-                self._exc_check(incs, op, trig, val, e['accept'])
+                if trig in (T_NEG_DT, T_NEG_KW, T_NEG_LIST) and not exc_is(val, *accept):
+                    incs.append(self.inc(f'{op}|{trig}|not-rejected', exc=kernel.exc_name(val), msg=str(val)[:200]))
+                else:
+                    self._exc_check(incs, op, trig, val, accept)
                 self._post(incs, op, trig, (p,))
             if trig == 'truncated-code':
                 self.fault('truncated_code')
@@ -775,11 +792,15 @@ class EStream(Engine):
                 self._post(incs, op, fam + '-failed', (p,))
         else:
             trig = e['trig']
+            neg = trig in (T_NEG_DT, T_NEG_KW, T_NEG_LIST)
             if st == 'ok':
-                incs.append(self.inc(f'{op}|{trig}|should-raise', got=canon(val), expected=list(e['accept'])))
+                incs.append(self.inc(f"{op}|{trig}|{'not-rejected' if neg else 'should-raise'}", got=canon(val), expected=list(e['accept'])))
                 self._post(incs, op, trig, (p,), adopt_any_valid=True)
             else:
-                self._exc_check(incs, op, trig, val, e['accept'])
+                if neg and not exc_is(val, *e['accept']):
+                    incs.append(self.inc(f'{op}|{trig}|not-rejected', exc=kernel.exc_name(val), msg=str(val)[:200]))
+                else:
+                    self._exc_check(incs, op, trig, val, e['accept'])
                 self._post(incs, op, trig, (p,))
             if e['consumed'] and e.get('fail') is not None:
                 self.probe('readlist failed after consuming items')
@@ -1474,13 +1495,18 @@ class EStream(Engine):
         if k == 'new':
             return (not self.mutable and ev.get('op') in ('and', 'or') and isinstance(ev.get('bs'), dict)
                     and ev['bs'].get('as') == 'self')
+        if k == 'mut':
+            # overwrite(s, pos != 0) of a stream with itself: pos is computed from the already grown length
+            return ev.get('op') == 'overwrite' and isinstance(ev.get('bs'), dict) and ev['bs'].get('as') == 'self'
         return False
 
     @staticmethod
     def _prop_newlen(ev, L):
         """Smallest length the assignment can leave (prediction used only to steer avoidance runs)."""
         attr = str(ev.get('attr'))
-        digits = ''.join(c for c in attr if c.isdigit())
+        if attr in SINGLE:
+            return SINGLE[attr]
+        digits = attr[len(attr.rstrip('0123456789')):]
         if digits:
             return int(digits)
         v = ev.get('v')
@@ -1854,7 +1880,12 @@ class EStream(Engine):
                     q = g.int(0, L)
                     continue
                 keep = g.pick(cuts)[1]
-                self.pending.append({'k': 'read', 'peek': peek, 'tok': {'t': 'tok', 'name': code, 'len': None, 'sp': g.pick(['colon', 'dtype'])}})
+                tok = {'t': 'tok', 'name': code, 'len': None, 'sp': g.pick(['colon', 'dtype'])}
+                if g.chance(0.6):
+                    self.pending.append({'k': 'read', 'peek': peek, 'tok': tok})
+                else:
+                    self.pending.append({'k': 'readlist', 'peek': peek, 'items': [tok] if g.chance(0.5) else [{'t': 'int', 'n': 0}, tok, {'t': 'int', 'n': 0}],
+                                         'as': g.pick(['list', 'str'])})
                 return {'k': 'trunc', 'keep': keep, 'seek': q, 'how': how}
             r = L - q
             if r < 2:
@@ -1953,3 +1984,146 @@ class EStream(Engine):
                         out.append(c)
         out.extend(kernel.simplify_generic(ev))
         return out
+
+    # ---- a harness-free reproduction script for a (minimised) event list -----------------------------------
+    def _r(self, o):
+        """Python source for an argument object."""
+        if isinstance(o, float) and (o != o or o in (float('inf'), float('-inf'))):
+            return f"float('{o}')"
+        if kernel.is_dtype(o):
+            sc = f', scale={o.scale!r}' if o.scale is not None else ''
+            return f'Dtype({o.name!r}, {o.length!r}{sc})'
+        if kernel.is_bits(o):
+            if o is getattr(self, 's', None):
+                return 's'
+            pos = f', pos={o._pos}' if getattr(o, '_pos', 0) else ''
+            return f"{type(o).__name__}(bin='{o.bin}'{pos})"
+        if isinstance(o, slice):
+            return f'slice({o.start!r}, {o.stop!r}, {o.step!r})'
+        if isinstance(o, list):
+            return '[' + ', '.join(self._r(x) for x in o) + ']'
+        return repr(o)
+
+    def _line(self, ev):
+        k = ev.get('k')
+        R = self._r
+        I = self._int
+        if k == 'read':
+            fmt, _, exc = self._tok_obj(ev.get('tok') or {'t': 'int', 'n': 0})
+            t = ev['tok']
+            if fmt is None:
+                return f"Dtype({t.get('name')!r}, {t.get('len')!r})"
+            return f"s.{'peek' if ev.get('peek') else 'read'}({R(fmt)})"
+        if k == 'readlist':
+            fmt, _, kw, exc = self._list_render(ev)
+            kws = ''.join(f', {a}={b}' for a, b in kw.items())
+            return f"s.{'peeklist' if ev.get('peek') else 'readlist'}({R(fmt)}{kws})"
+        if k == 'readto':
+            a = R(ev['int']) if ev.get('int') is not None else R(self._operand(ev.get('bs'))[0])
+            return f"s.readto({a}{'' if ev.get('ba') is None else ', bytealigned=' + repr(ev.get('ba'))})"
+        if k == 'seek':
+            if ev.get('rel'):
+                return f"s.{ev.get('attr', 'pos')} += {I(ev.get('v'), 0)}"
+            return f"s.{ev.get('attr', 'pos')} = {I(ev.get('v'), 0)}"
+        if k == 'tell':
+            return f"s.{ev.get('attr', 'pos')}"
+        if k == 'bytealign':
+            return 's.bytealign()'
+        if k == 'find':
+            a = [R(self._operand(ev.get('bs'))[0])] + [f'{x}={ev[x]!r}' for x in ('start', 'end') if I(ev.get(x)) is not None]
+            if ev.get('ba') in (True, False):
+                a.append(f"bytealigned={ev['ba']}")
+            return f"s.{'rfind' if ev.get('r') else 'find'}({', '.join(a)})"
+        if k == 'option':
+            return f"bitstring.options.bytealigned = {bool(ev.get('ba'))}"
+        if k == 'cache_clear':
+            return '# (every lru_cache of the package cleared here)'
+        if k == 'trunc':
+            keep, seek = ev.get('keep'), ev.get('seek')
+            if self.cfg.get('cls') == 'BitStream' and ev.get('how') != 'ctor':
+                return f'del s[{keep}:]; s.pos = min({seek}, len(s))'
+            return f's = s[:{keep}]; s.pos = min({seek}, len(s))'
+        if k == 'propset':
+            return f"s.{ev.get('attr')} = {R(self._prop_value(ev.get('v')))}"
+        if k == 'eq':
+            return f"t = {self.cfg.get('cls')}(s); t.pos = {I(ev.get('other_pos'), 0)}; (s == t, {'hash(s) == hash(t)' if self.cfg.get('cls') != 'BitStream' else 't == s'})"
+        if k in ('mut', 'new', 'query'):
+            op = ev.get('op')
+            o1 = R(self._operand(ev.get('bs'))[0]) if ev.get('bs') is not None else None
+            o2 = R(self._operand(ev.get('bs2'))[0]) if ev.get('bs2') is not None else None
+            se = ''.join(f', {x}={ev[x]!r}' for x in ('start', 'end', 'count') if I(ev.get(x)) is not None)
+            sym = {'iadd': '+=', 'ilshift': '<<=', 'irshift': '>>=', 'imul': '*=', 'iand': '&=', 'ior': '|=', 'ixor': '^=',
+                   'add': '+', 'and': '&', 'or': '|', 'xor': '^', 'lshift': '<<', 'rshift': '>>', 'mul': '*'}
+            if op in sym:
+                rhs = o1 if op in ('iadd', 'iand', 'ior', 'ixor', 'add', 'and', 'or', 'xor') else repr(I(ev.get('n'), 1))
+                return f's {sym[op]} {rhs}'
+            if op == 'radd':
+                return f'{o1} + s'
+            if op == 'rmul':
+                return f"{I(ev.get('n'), 1)} * s"
+            if op == 'invert' and k == 'new':
+                return '~s'
+            if op == 'del':
+                return f"del s[{R(self._key(ev.get('key')))}]"
+            if op in ('setitem',):
+                v = I(ev.get('value'))
+                return f"s[{R(self._key(ev.get('key')))}] = {o1 if v is None else v}"
+            if op == 'slice':
+                return f"s[{R(self._key(ev.get('key')))}]"
+            if op in ('insert', 'overwrite'):
+                return f"s.{op}({o1}{'' if I(ev.get('pos')) is None else ', ' + repr(ev['pos'])})"
+            if op == 'replace':
+                return f's.replace({o1}, {o2}{se})'
+            if op in ('append', 'prepend'):
+                return f's.{op}({o1})'
+            if op == 'copy.copy':
+                return 'copy.copy(s)'
+            if op == 'ctor':
+                return f"{self.cfg.get('cls')}(s)"
+            if op in ('rol', 'ror'):
+                return f"s.{op}({I(ev.get('n'), 1)}{se})"
+            if op in ('set', 'invert'):
+                return f"s.{op}({repr(bool(ev.get('v', 1))) + ', ' if op == 'set' else ''}{ev.get('pos')!r})"
+            if op == 'byteswap':
+                return f"s.byteswap({ev.get('fmt')!r}{se}, repeat={bool(ev.get('repeat', True))})"
+            if op == 'cut':
+                return f"list(s.cut({I(ev.get('n'), 1)}{se}))"
+            if op in ('split', 'findall'):
+                return f'list(s.{op}({o1}{se}))'
+            if op == 'join':
+                return f's.join([{o1}, s, {o1}])'
+            if op == 'unpack':
+                return f"s.unpack({ev.get('fmt')!r})"
+            if op in ('count1', 'count0'):
+                return f's.count({op[-1]})'
+            if op in ('bin', 'hex', 'uint', 'int', 'bytes', 'bits'):
+                return f's.{op}'
+            if op in ('startswith', 'endswith'):
+                return f's.{op}({o1}{se})'
+            if op == 'contains':
+                return f'{o1} in s'
+            return f's.{op}()' if op in ('clear', 'reverse', 'copy', 'tobytes', 'tobitarray') else f'# {op} {kernel.jdump(ev)}'
+        return '# ' + kernel.jdump(ev)
+
+    def script(self, events):
+        """<= 10 lines for a minimised run (one line per event); run with /venv/bin/python from any directory."""
+        cfg = events[0]['cfg']
+        self.rec = kernel.RunRecord()
+        self.start(cfg)
+        try:
+            C = cfg.get('cls')
+            lines = ['import bitstring, copy', 'from bitstring import *',
+                     f"s = {C}(bin='{self.B}'); s.pos = {self.p}" + ("  # built from a file / slice in the run" if cfg.get('route') in ('file', 'slice') else '')]
+            if cfg.get('ba'):
+                lines.append('bitstring.options.bytealigned = True')
+            for ev in events[1:]:
+                ln = self._line(ev)
+                lines.append('try: print(repr(' + ln + '))\nexcept Exception as e: print(type(e).__name__, e)'
+                             if not any(x in ln for x in (' = ', ' += ', '<<=', '>>=', '*=', '&=', '|=', '^=', 'del ', '#')) or ln.startswith('t = ')
+                             else 'try: ' + ln + '\nexcept Exception as e: print(type(e).__name__, e)')
+                if ln.startswith('t = '):
+                    lines[-1] = ln.split('; (')[0] + '; print(' + ln.split('; ')[2] + ')'
+                lines.append("print('pos', s.pos, 'len', len(s))")
+            return '\n'.join(lines)
+        finally:
+            self.cleanup()
